@@ -152,7 +152,7 @@ __CPROVER_ensures(__CPROVER_return_value != NULL ==>
  *   isdigit(0) == isalpha(0) == isalnum(0) == 0,  and  isalpha(c) => isalnum(c). */
 #ifdef LEX_CTAB_CONCRETE
 static const unsigned short __verif_ctab[384] = {
-#include "/tmp/c09w/ctab.inc"
+#include "ctab_c_locale.inc"
 };
 #else
 static unsigned short __verif_ctab[384];
